@@ -89,7 +89,8 @@ func runC08(c *Ctx) {
 			// deriveKey(acctInfo, branch, index, hasPrivateKey): index = phi(next, next-1) of next<Br>Index, guarded by > 0
 			found := false
 			for _, call := range callsNamed(la, "deriveKey") {
-				ph, ok := call.Call.Args[3].(*ssa.Phi)
+				idxArg := p.argNamed(call, "index", 3)
+				ph, ok := idxArg.(*ssa.Phi)
 				if !ok {
 					continue
 				}
@@ -102,7 +103,10 @@ func runC08(c *Ctx) {
 					found = true
 					// branch constant matches
 					bc, _ := constInPkg(p, "waddrmgr", br+"Branch")
-					k, isK := constInt(call.Call.Args[2])
+					k, isK := int64(0), false
+					if ba := p.argNamed(call, "branch", 2); ba != nil {
+						k, isK = constInt(ba)
+					}
 					c.Check("C08-R3", "last-address-branch:"+br, call.Pos(), isK && k == bc, "the last "+br+" address is derived on the wrong branch")
 				}
 			}
@@ -146,6 +150,7 @@ func runC08(c *Ctx) {
 	// ---------- R4 ----------
 	checkIssuersPersistEveryAddress(c, "C08-R2")
 	checkStartBlockDecision(c, "C08-R2")
+	checkAccountCreationRefusesExistingNumber(c, "C08-R2")
 	checkImportAddressIDAgreesWithConstructor(c, "C08-R3")
 	checkDerivationPathLiterals(c, "C08-R3")
 	checkRowRewrites(c, "C08-R4")
